@@ -19,10 +19,14 @@ CONSTANTS
   Unit,       \* indentation unit (sequence of characters)
   Base,       \* indentation (in units) of depth 0
   FreeInd,    \* set of indentations (in units) a code line / tag line may choose in addition to Base + depth
+  FreeTags,   \* FALSE: only code lines choose from FreeInd, lines with tags stand at Base + depth
   WsLens,     \* set of lengths of whitespace-only lines (in characters, taken cyclically from Unit); {} = none
   Blank,      \* TRUE: empty lines allowed
   Suffix,     \* text appended to every code line (e.g. a multi-byte character), <<>> for none
   FlagVal,    \* spelling appended to the flag attributes skip / unwrap-block: <<>> (bare) or e.g. ='1' (valued flag)
+  TagPad,     \* characters between the tag body and the end delimiter (and behind the start delimiter of closing tags stays
+              \* none): <<>> or e.g. <<SP>> ("<tag a='b' >"), the README's padded style
+  WideCode,   \* TRUE: code lines consist of the wide blanks U+3000 / U+00A0 only (no blank in the sense of the tool)
   QuoteCh,    \* quote character of attribute values: 39 (') or 34 (")
   FlagsFirst, \* TRUE: the flag attributes come before name / to instead of after them
   TagSep,     \* separator in front of the c='e<n>' attribute of opening tags: <<SP>> or e.g. a line break plus
@@ -31,6 +35,7 @@ CONSTANTS
   Preamble,   \* number of filler code lines "p<i>;" in front of the generated document (pushes line numbers up)
   InlineTags, \* TRUE: an opening tag may follow code on its line ("c1; <tag>") and code may follow a closing tag
               \*       ("</tag>d  1;"): elements whose tags share lines with code
+  TailKinds,  \* kinds of the elements lying wholly on one line (tail / lead elements and tag-line neighbours)
   TailElems,  \* TRUE: lines "c<n>; <tag>t<n></tag>" and "<tag>t<n></tag> c<n>;" may be added: an element wholly on one
               \*       line, behind or in front of code
   PairKind,   \* kind of the two elements of a pair line
@@ -52,24 +57,37 @@ gvars == <<lines, stack, nel>>
 Init == lines = <<>> /\ stack = <<>> /\ nel = 0
 
 Inds == {Base + Len(stack)} \cup FreeInd
+TInds == IF FreeTags THEN Inds ELSE {Base + Len(stack)}
 
 AddCode  == \E i \in Inds : lines' = Append(lines, [k |-> "code", ind |-> i, n |-> Len(lines) + 1, kind |-> <<>>])
                            /\ UNCHANGED <<stack, nel>>
-AddPair  == PairLines /\ \E i \in Inds : lines' = Append(lines, [k |-> "pair", ind |-> i, n |-> Len(lines) + 1, kind |-> <<>>])
+AddPair  == PairLines /\ \E i \in TInds : lines' = Append(lines, [k |-> "pair", ind |-> i, n |-> Len(lines) + 1, kind |-> <<>>])
                            /\ UNCHANGED <<stack, nel>>
 AddBlank == Blank /\ lines' = Append(lines, [k |-> "blank", ind |-> 0, n |-> 0, kind |-> <<>>]) /\ UNCHANGED <<stack, nel>>
 AddWs    == \E w \in WsLens : lines' = Append(lines, [k |-> "ws", ind |-> w, n |-> 0, kind |-> <<>>]) /\ UNCHANGED <<stack, nel>>
 AddTail  == /\ TailElems /\ nel < E
-            /\ \E kd \in Kinds, i \in Inds, shape \in {"tail", "lead"} :
+            /\ \E kd \in TailKinds, i \in TInds, shape \in {"tail", "lead"} :
                  lines' = Append(lines, [k |-> shape, ind |-> i, n |-> nel + 1, kind |-> kd])
             /\ nel' = nel + 1 /\ UNCHANGED stack
+\* an opening tag with an element wholly behind it on the same line / a closing tag with one in front of it
+OpenWithTail == /\ TailElems /\ Len(stack) < D /\ nel + 1 < E
+                /\ \E kd \in Kinds, kx \in TailKinds, i \in TInds :
+                     /\ lines' = Append(lines, [k |-> "opent", ind |-> i, n |-> nel + 1, kind |-> kd, kind2 |-> kx])
+                     /\ stack' = Append(stack, <<kd, i>>)
+                /\ nel' = nel + 2
+CloseWithLead == /\ TailElems /\ stack # <<>> /\ nel < E
+                 /\ \E kx \in TailKinds :
+                      lines' = Append(lines, [k |-> "closel", ind |-> stack[Len(stack)][2], n |-> nel + 1,
+                                              kind |-> stack[Len(stack)][1], kind2 |-> kx])
+                 /\ stack' = SubSeq(stack, 1, Len(stack) - 1)
+                 /\ nel' = nel + 1
 Open     == /\ Len(stack) < D /\ nel < E
-            /\ \E kd \in Kinds, i \in Inds :
+            /\ \E kd \in Kinds, i \in TInds :
                  /\ lines' = Append(lines, [k |-> "open", ind |-> i, n |-> nel + 1, kind |-> kd])
                  /\ stack' = Append(stack, <<kd, i>>)
             /\ nel' = nel + 1
 OpenInl  == /\ InlineTags /\ Len(stack) < D /\ nel < E
-            /\ \E kd \in Kinds, i \in Inds :
+            /\ \E kd \in Kinds, i \in TInds :
                  /\ lines' = Append(lines, [k |-> "copen", ind |-> i, n |-> nel + 1, kind |-> kd])
                  /\ stack' = Append(stack, <<kd, i>>)
             /\ nel' = nel + 1
@@ -87,10 +105,14 @@ InDefault == stack # <<>> /\ ~stack[Len(stack)][1][2]
 
 Next == /\ Len(lines) < L
         /\ IF EmptyDefault /\ InDefault THEN Close
-           ELSE (CodeCount < MaxCode /\ AddCode) \/ AddPair \/ AddBlank \/ AddWs \/ Open \/ Close \/ OpenInl \/ CloseInl \/ AddTail
+           ELSE (CodeCount < MaxCode /\ AddCode) \/ AddPair \/ AddBlank \/ AddWs \/ Open \/ Close \/ OpenInl \/ CloseInl \/ AddTail \/ OpenWithTail \/ CloseWithLead
 
 \* a document can only be completed if the open elements can still be closed
 Feasible == Len(lines) + Len(stack) <= L
+
+\* narrower spaces for the larger families: the document begins with the opening tag of an unwrap-block
+StartsUnwrap == lines = <<>> \/ (lines[1].k \in {"open", "opent"} /\ lines[1].kind[2])
+FeasibleU == Feasible /\ StartsUnwrap
 
 Q == <<QuoteCh>>
 Str(s) == s
@@ -112,18 +134,21 @@ OpenTag(kd, n) ==
   DS \o TagName(kd)
      \o (IF FlagsFirst THEN FlagAttrs(kd) \o CondAttr(kd) ELSE CondAttr(kd) \o FlagAttrs(kd))
      \o TagSep \o <<99, 61>> \o Q \o <<101>> \o Digits(n) \o Q                                                 \* c='e<n>'
-     \o DE
-CloseTag(kd) == DS \o <<47>> \o TagName(kd) \o DE
+     \o TagPad \o DE
+CloseTag(kd) == DS \o <<47>> \o TagName(kd) \o TagPad \o DE
 
 RECURSIVE Indent(_)
 Indent(k) == IF k <= 0 THEN <<>> ELSE Unit \o Indent(k - 1)
 
 LineTextOf(l) ==
-  IF l.k = "code" THEN Indent(l.ind) \o (IF MbCode THEN <<12354 + l.n, 233, 128512 + l.n>>                  \* 3-, 2-, 4-byte
+  IF l.k = "code" /\ WideCode THEN Indent(l.ind) \o RepeatCh(12288, l.n) \o <<160>>                          \* n wide blanks + NBSP
+  ELSE IF l.k = "code" THEN Indent(l.ind) \o (IF MbCode THEN <<12354 + l.n, 233, 128512 + l.n>>                  \* 3-, 2-, 4-byte
                                           ELSE <<99>> \o CodeA \o Digits(l.n) \o CodeB \o <<59>>) \o Suffix  \* c<n>;
   ELSE IF l.k = "pair" THEN Indent(l.ind) \o OpenTag(PairKind, 90 + l.n) \o <<105>> \o Digits(l.n) \o CloseTag(PairKind)
                                           \o OpenTag(PairKind, 190 + l.n) \o <<106>> \o Digits(l.n) \o CloseTag(PairKind)
   ELSE IF l.k = "tail" THEN Indent(l.ind) \o <<99>> \o Digits(l.n) \o <<59, 32>> \o OpenTag(l.kind, l.n) \o <<116>> \o Digits(l.n) \o CloseTag(l.kind)   \* c<n>; <tag>t<n></tag>
+  ELSE IF l.k = "opent" THEN Indent(l.ind) \o OpenTag(l.kind, l.n) \o <<32>> \o OpenTag(l.kind2, l.n + 1) \o <<116>> \o Digits(l.n + 1) \o CloseTag(l.kind2)
+  ELSE IF l.k = "closel" THEN Indent(l.ind) \o OpenTag(l.kind2, l.n) \o <<116>> \o Digits(l.n) \o CloseTag(l.kind2) \o <<32>> \o CloseTag(l.kind)
   ELSE IF l.k = "lead" THEN Indent(l.ind) \o OpenTag(l.kind, l.n) \o <<116>> \o Digits(l.n) \o CloseTag(l.kind) \o <<32, 99>> \o Digits(l.n) \o <<59>>   \* <tag>t<n></tag> c<n>;
   ELSE IF l.k = "copen" THEN Indent(l.ind) \o <<111>> \o Digits(l.n) \o <<59, 32, 123, 32>> \o OpenTag(l.kind, l.n)          \* o<n>; { <tag>
   ELSE IF l.k = "cclose" THEN Indent(l.ind) \o CloseTag(l.kind) \o <<100, 32, 32, 32, 61, 32>> \o Digits(l.n) \o <<59>>      \* </tag>d   = <n>;
